@@ -5,7 +5,7 @@
    sum over active records; locked + scheduled + liquid tokens stay constant; an account controls at most one
    miner; a rejected miner transaction changes nothing but the fee. *)
 From Coq Require Import List ZArith NArith Lia Bool.
-From V.C20 Require Import Model Proofs Unique Ledger.
+From V.C20 Require Import Model Proofs Unique Ledger KeyModel KeyProofs.
 Import ListNotations.
 Local Open Scope Z_scope.
 
@@ -131,6 +131,109 @@ Theorem C20_covers_kept : forall e h t s, apply_id t = None -> covers e s -> cov
 Proof. exact run_tx_covers. Qed.
 Print Assumptions C20_covers_kept.
 
+(* ---- the key space: registry storage keyed by byte strings, H = SHA-256 as a parameter ---- *)
+(* the command-returning control flow used by the key-level model is Model.execute *)
+Theorem C20_decide_is_execute : forall e h t s, execute e h t s = run_outcome s (decide e h t s).
+Proof. exact execute_decide. Qed.
+Print Assumptions C20_decide_is_execute.
+
+(* the 4 storage keys of every id are pairwise distinct from those of every other id whenever the ids are distinct,
+   no id is H^a of an id (a = 1..3), and H has no collision on the 3-step chains of the ids *)
+Theorem C20_keys_disjoint : forall (H : key -> key) (idkey : N -> key),
+  (forall i j, idkey i = idkey j -> i = j) ->
+  (forall i j a, (1 <= a <= 3)%nat -> idkey i <> Hn H a (idkey j)) ->
+  (forall i j a b, (a <= 2)%nat -> (b <= 2)%nat ->
+     H (Hn H a (idkey i)) = H (Hn H b (idkey j)) -> Hn H a (idkey i) = Hn H b (idkey j)) ->
+  keys_disjoint H idkey.
+Proof. exact keys_disjoint_of_ids. Qed.
+Print Assumptions C20_keys_disjoint.
+
+(* ... in particular an id whose length is not the hash length cannot alias *)
+Theorem C20_no_alias_by_length : forall (H : key -> key) (idkey : N -> key) (len : key -> N),
+  (forall x, len (H x) = 32%N) -> forall i, len (idkey i) <> 32%N ->
+  forall j a, (1 <= a <= 3)%nat -> idkey i <> Hn H a (idkey j).
+Proof. exact no_alias_by_length. Qed.
+Print Assumptions C20_no_alias_by_length.
+
+(* under keys_disjoint one loop iteration on byte-string keys (the real SetData sequences) IS one loop iteration of
+   the slot model on what GetData reads *)
+Theorem C20_key_simulation : forall H idkey au, keys_disjoint H idkey -> forall e h t s,
+  st_eq (view H idkey au (fst (k_run_tx H idkey au e h t s))) (fst (run_tx e h t (view H idkey au s))) /\
+  snd (k_run_tx H idkey au e h t s) = snd (run_tx e h t (view H idkey au s)).
+Proof. exact k_run_tx_sim. Qed.
+Print Assumptions C20_key_simulation.
+
+(* views agree on the key-level state (an instance: the reads of the key level are the view) *)
+Theorem C20_views_agree_keys : forall H idkey au e (s : kst) k i,
+  boundary (view H idkey au s) -> reg_wf (ids e) (view H idkey au s) -> acct_unique (view H idkey au s) ->
+  registered (view H idkey au s) k i ->
+  get_miner (view H idkey au s) i = Some (k, cur (view H idkey au s) k i) /\
+  In i (iter_ids e (view H idkey au s) k) /\
+  by_account e (view H idkey au s) (s_acct (cur (view H idkey au s) k i)) = Some i.
+Proof. intros H idkey au e s. exact (views_agree e (view H idkey au s)). Qed.
+Print Assumptions C20_views_agree_keys.
+
+(* stake accounting, conservation and account uniqueness per transaction on byte-string keys, guard keys_disjoint *)
+Theorem C20_stake_accounting_keys : forall H idkey au, keys_disjoint H idkey ->
+  forall A I W e h t s i, universe A I -> supply_bound W -> tx_closed A I t -> led_inv A I W (view H idkey au s) ->
+  stake_of (view H idkey au (fst (k_run_tx H idkey au e h t s))) i =
+  stake_of (view H idkey au s) i + booked t (snd (k_run_tx H idkey au e h t s)) (view H idkey au s) i.
+Proof. exact k_stake_step. Qed.
+Print Assumptions C20_stake_accounting_keys.
+
+Theorem C20_conservation_keys : forall H idkey au, keys_disjoint H idkey ->
+  forall A I W e h t s, universe A I -> supply_bound W -> tx_closed A I t -> led_inv A I W (view H idkey au s) ->
+  led_inv A I W (view H idkey au (fst (k_run_tx H idkey au e h t s))).
+Proof. exact k_inv_step. Qed.
+Print Assumptions C20_conservation_keys.
+
+Theorem C20_account_unique_keys : forall H idkey au, keys_disjoint H idkey ->
+  forall e h t s, reg_wf (ids e) (view H idkey au s) -> guard e t (view H idkey au s) -> acct_unique (view H idkey au s) ->
+  acct_unique (view H idkey au (fst (k_run_tx H idkey au e h t s))).
+Proof. exact k_unique_step. Qed.
+Print Assumptions C20_account_unique_keys.
+
+(* without keys_disjoint the statements are FALSE, for ANY hash: y = H(x) / H(H(x)) / H(H(H(x))) *)
+Theorem C20_alias_stake_refuted : forall (H : key -> key) idkey au st k x y n ap stake acct,
+  idkey y = H (idkey x) -> H (idkey x) <> H (H (idkey x)) -> H (idkey x) <> H (H (H (idkey x))) ->
+  H (idkey x) <> H (H (H (H (idkey x)))) ->
+  st k (k1 H idkey x) = Some (CStake n) ->
+  rd_info (st k (k0 idkey y)) = None /\
+  s_stake (view_cur H idkey au (k_apply_w H idkey st (WNew k y ap stake acct)) k x) = JSONPFX.
+Proof. exact alias_stake_refuted. Qed.
+Print Assumptions C20_alias_stake_refuted.
+
+Theorem C20_alias_account_refuted : forall (H : key -> key) idkey au st k x y a ap stake acct,
+  idkey y = H (H (idkey x)) -> H (H (idkey x)) <> H (H (H (idkey x))) -> H (H (idkey x)) <> H (H (H (H (idkey x)))) ->
+  H (H (idkey x)) <> H (H (H (H (H (idkey x))))) ->
+  st k (k2 H idkey x) = Some (CAcct a) ->
+  rd_info (st k (k0 idkey y)) = None /\
+  s_acct (view_cur H idkey au (k_apply_w H idkey st (WNew k y ap stake acct)) k x) = junk_json y.
+Proof. exact alias_account_refuted. Qed.
+Print Assumptions C20_alias_account_refuted.
+
+Theorem C20_alias_status_refuted : forall (H : key -> key) idkey au st k x y ap stake acct,
+  idkey y = H (H (H (idkey x))) -> H (H (H (idkey x))) <> H (H (H (H (idkey x)))) ->
+  H (H (H (idkey x))) <> H (H (H (H (H (idkey x))))) -> H (H (H (idkey x))) <> H (H (H (H (H (H (idkey x)))))) ->
+  st k (k3 H idkey x) = Some (CStat 1) ->
+  rd_info (st k (k0 idkey y)) = None /\
+  s_stat (view_cur H idkey au st k x) = 1%N /\
+  s_stat (view_cur H idkey au (k_apply_w H idkey st (WNew k y ap stake acct)) k x) = 0%N.
+Proof. exact alias_status_refuted. Qed.
+Print Assumptions C20_alias_status_refuted.
+
+(* end to end through the key-level loop on a concrete hash: both applies succeed, nothing is booked for miner 1,
+   its stake reads the json prefix *)
+Theorem C20_stake_accounting_keys_refuted :
+  let t := TApply 3 true 0 2 400 0 true in
+  let r := k_run_tx Hc idc (fun _ => 0%N) env_a 101 t k_after1 in
+  snd r = ROk /\
+  stake_of (view Hc idc (fun _ => 0%N) k_after1) 1 = 800 /\
+  booked t (snd r) (view Hc idc (fun _ => 0%N) k_after1) 1 = 0 /\
+  stake_of (view Hc idc (fun _ => 0%N) (fst r)) 1 = Z.of_N JSONPFX.
+Proof. exact stake_accounting_keys_refuted. Qed.
+Print Assumptions C20_stake_accounting_keys_refuted.
+
 (* ---- the hypotheses are satisfiable ---- *)
 Example C20_hypotheses_satisfiable :
   universe [1%N; 2%N] [1%N; 2%N] /\ supply_bound (tok 10000) /\
@@ -143,3 +246,6 @@ Proof.
   split; [apply empty_boundary|]. split; [apply empty_reg_wf|]. split; [apply empty_unique|].
   split; [exact example_guarded|]. unfold registered. vm_compute. discriminate.
 Qed.
+
+Example C20_keys_disjoint_satisfiable : keys_disjoint (fun x => 10 * x)%N (fun i => 10 * i + 1)%N.
+Proof. exact keys_disjoint_example. Qed.
